@@ -1,7 +1,7 @@
 (* C19 — results are invariant under renaming / re-ordering and obey the laws of language inclusion. Corollaries of the
    theorems of C01, C02, C03, C05, C14. Statements only. *)
 From Coq Require Import List NArith Bool.
-From V Require Import Sem Prod Incl TrimDefs TrimProofs Lang InclDefs InclProofs BinopDefs BinopProofs ProductDefs ProductProofs ReduceDefs ReduceProofs LawsDefs LawsProofs.
+From V Require Import Sem Prod Incl TrimDefs TrimProofs Lang InclDefs InclProofs BinopDefs BinopProofs ProductDefs ProductProofs ReduceDefs ReduceProofs LawsDefs LawsProofs TrimEquiv.
 
 (* renaming the states of the operands by maps that are injective on their states never changes a verdict *)
 Theorem C19_verdict_equivariant : forall v h k A B, inj_on h (states A) -> inj_on k (states B) ->
@@ -45,7 +45,17 @@ Proof. exact pairwise_sound. Qed.
 Theorem C19_must_hold_sound : forall o, answers true o -> must_hold o = true.
 Proof. exact must_hold_sound. Qed.
 
+(* trimming is equivariant: the surviving states of a renamed automaton are the renamed survivors, so the number of states
+   produced by trimming does not depend on the numbering *)
+Theorem C19_trim_states_equivariant : forall h A x, inj_on h (states A) ->
+  (In x (states (remove_useless (image h A))) <-> exists q, In q (states (remove_useless A)) /\ x = h q).
+Proof. exact useless_states_image. Qed.
+Theorem C19_trim_size_equivariant : forall h A, inj_on h (states A) -> nstates (remove_useless (image h A)) = nstates (remove_useless A).
+Proof. exact trim_size_equivariant. Qed.
+
 Print Assumptions C19_verdict_equivariant.
+Print Assumptions C19_trim_states_equivariant.
+Print Assumptions C19_trim_size_equivariant.
 Print Assumptions C19_empty_equivariant.
 Print Assumptions C19_order_invariant.
 Print Assumptions C19_all_agree.
